@@ -571,8 +571,8 @@ func SimdPlan(tier string) *harness.Plan {
 				}
 			}
 		},
-		Rule: "Every primitive of package simd, for every length 0..200, flush against an inaccessible page on either side (the placed copies and the zero gaps between them are verified unchanged after every content) and at interior alignments, with the hit at every position (and no hit, two hits, near-miss bytes, every byte value for the class primitives, every needle over {a,b}^<=4 plus rare/long needles for Memmem), compared with the one-line scalar definition; once per CPU-feature mask (worker processes started with GODEBUG=cpu.*=off). states = transitions = calls executed; non-trivial = calls whose scalar definition reports a hit (distinct by construction: distinct (content, placement, length) triples).",
-		Level: "model_checking",
+		Rule:   "Every primitive of package simd, for every length 0..200, flush against an inaccessible page on either side (the placed copies and the zero gaps between them are verified unchanged after every content) and at interior alignments, with the hit at every position (and no hit, two hits, near-miss bytes, every byte value for the class primitives, every needle over {a,b}^<=4 plus rare/long needles for Memmem), compared with the one-line scalar definition; once per CPU-feature mask (worker processes started with GODEBUG=cpu.*=off). states = transitions = calls executed; non-trivial = calls whose scalar definition reports a hit (distinct by construction: distinct (content, placement, length) triples).",
+		Level:  "model_checking",
 		Bounds: map[string]any{"max_len": lmax, "interior_alignments": mids, "placements": []string{"flush-upper-guard", "flush-lower-guard", "interior"}},
 		Passes: []harness.Pass{{Name: "native"}, {Name: "noavx2", Env: []string{"GODEBUG=cpu.avx2=off"}}, {Name: "noavx2-nossse3", Env: []string{"GODEBUG=cpu.avx2=off,cpu.ssse3=off,cpu.sse41=off"}}},
 		Assume: []string{"page protection of the kernel detects out-of-slice accesses only when they cross into a guard page (slices are flush against it)",
